@@ -92,7 +92,11 @@ func ScalarClasses() []SC { return scalarClasses }
 
 // Scalar draws from a mixture: structured classes, sparse, dense, low/high halves, uniform.
 func (r *Rand) Scalar() SC {
-	switch r.Intn(10) {
+	switch r.Intn(12) {
+	case 10: // every 64-bit word from a short list of carry-chain boundary patterns
+		return SC{ref.Sc(r.wordPattern(wordPats64, 64)), "word-patterns-64"}
+	case 11: // the same at 32-bit granularity
+		return SC{ref.Sc(r.wordPattern(wordPats32, 32)), "word-patterns-32"}
 	case 0, 1, 2:
 		return scalarClasses[r.Intn(len(scalarClasses))]
 	case 3: // sparse
@@ -161,4 +165,31 @@ func (r *Rand) LibScalarAlt(k *big.Int) (*edwards25519.Scalar, string) {
 		b := ref.SMul(k, ref.SInv(a))
 		return new(edwards25519.Scalar).Multiply(LibScalar(a), LibScalar(b)), "a*b"
 	}
+}
+
+var wordPats64 = []uint64{0, 1, 0x7777777777777777, 0x7777777777777778, 0x8888888888888888, 0x8888888888888887, 0xffffffffffffffff, 0xfffffffffffffff8, 0x8000000000000000, 0x7fffffffffffffff, 0x0f0f0f0f0f0f0f0f, 0xf0f0f0f0f0f0f0f0}
+var wordPats32 = []uint64{0, 1, 0x77777777, 0x77777778, 0x88888888, 0x88888887, 0xffffffff, 0xfffffff8, 0x80000000, 0x7fffffff}
+
+// wordPattern assembles a 256-bit integer whose words (of the given width) are drawn from a
+// list of boundary patterns, one word possibly random: carries between machine words in
+// recodings and reductions are exercised at every word boundary. The top is cut to 252 bits.
+func (r *Rand) wordPattern(pats []uint64, width int) *big.Int {
+	x := new(big.Int)
+	n := 256 / width
+	rnd := r.Intn(2 * n) // index of a random word, or none
+	for i := n - 1; i >= 0; i-- {
+		w := pats[r.Intn(len(pats))]
+		if i == rnd {
+			w = r.U64()
+			if width == 32 {
+				w &= 0xffffffff
+			}
+		}
+		x.Lsh(x, uint(width))
+		x.Add(x, new(big.Int).SetUint64(w))
+	}
+	if r.Bool() {
+		x.And(x, new(big.Int).Sub(pow2(252), big.NewInt(1)))
+	}
+	return x
 }
